@@ -215,6 +215,9 @@ def corruptions(data):
     for i in range(4):
         for v in (0x00, 0xFF, data[i] ^ 1):
             out.append(("header tag byte %d := 0x%02x" % (i, v), data[:i] + bytes([v]) + data[i + 1:]))
+    # whole tags replaced by other four-letter tags, including the *other* valid chunk tag
+    for tag in (b"MTrk", b"RIFF", b"mthd", b"MThD"):
+        out.append(("header tag := %r" % tag, tag + data[4:]))
     # impossible format numbers
     for fmt in (3, 255, 65535):
         out.append(("format := %d" % fmt, data[:8] + fmt.to_bytes(2, "big") + data[10:]))
@@ -227,6 +230,8 @@ def corruptions(data):
         for i in range(4):
             for v in (0x00, 0xFF, data[pos + i] ^ 1):
                 out.append(("track %d tag byte %d := 0x%02x" % (k, i, v), data[:pos + i] + bytes([v]) + data[pos + i + 1:]))
+        for tag in (b"MThd", b"RIFF", b"mtrk", b"MTrK"):
+            out.append(("track %d tag := %r" % (k, tag), data[:pos] + tag + data[pos + 4:]))
         pos += 8 + int.from_bytes(data[pos + 4:pos + 8], "big")
         k += 1
     return out
